@@ -237,10 +237,13 @@ class Indentation(afmformats.AFMForceDistance):
             indentation depth and determining a plateau in the
             resulting Young's modulus (fitting parameter "E").
         """
-        if "preprocessing" in kwargs:
+        if "preprocessing" in kwargs or "preprocessing_options" in kwargs:
+            # (new options alone are a new preprocessing request, too:
+            # they are applied to the current pipeline)
+            preprocessing = kwargs.get("preprocessing", self.preprocessing)
             options = kwargs.get("preprocessing_options",
                                  self.preprocessing_options)
-            self.apply_preprocessing(preprocessing=kwargs["preprocessing"],
+            self.apply_preprocessing(preprocessing=preprocessing,
                                      options=options)
         # self.fit_properties is an instance of FitProperties that
         # stores previous fit kwargs. If the given kwargs are
